@@ -20,10 +20,10 @@ for i in ids:
 # the source ties added after the check modules were written (DESIGN.md 2.2): appended to the claimed text
 TIE = {
  "C01": "_query_linear (initial minimum, row-loop body)",
- "C02": "hyperloglog _add (index, rank, register update), _merge loop body, _n_leading_zeros64",
- "C03": "heavy-hitter _add/_merge cell updates and the _max_count row body",
+ "C02": "hyperloglog _add (index, rank, register update), _merge loop body, _n_leading_zeros64, the HyperLogLog.add wrapper",
+ "C03": "heavy-hitter _add/_merge cell updates, the _max_count row body, the HeavyHitters.add wrapper (clamp)",
  "C04": "heavy-hitter _add/_merge cell updates",
- "C05": "_add_linear (straight-line part and update-loop body), _query_log*/_add_log* regions",
+ "C05": "_add_linear (straight-line part and update-loop body), _query_log*/_add_log* regions, the class-level add wrappers of the three count-min classes",
  "C06": "_rand pointer logic and the body of _log_counter's loop",
  "C07": "the HyperLogLog estimator composed from regenerated pieces on the empty sketch",
  "C08": "the index arithmetic of parallel_merging (loop test, merger count, block indices, survivor range), _merge_worker's receiver and _fill_queue's pill count",
